@@ -12,7 +12,7 @@ RULE = ('seeded plans: per side 0-5 bundles with boundary-biased lengths, segmen
         'when at least one bundle was delivered or segment written; distinct = distinct blake2b digests of the full event history.')
 COMPONENTS = tc.COMPONENTS
 PROBES = ('tcp.chunked', 'tcp.short_write', 'tcp.eagain', 'bundles.delivered', 'probe.zero_length', 'probe.multi_segment',
-          'probe.send_before_established')
+          'probe.send_before_established', 'fault.stall', 'fault.slow', 'wire.KEEPALIVE')
 ASSUMPTIONS = [
     'kernel TCP is modelled as a reliable FIFO byte pipe with bounded buffers (dsim.net)',
     'GLib dispatch rules as in dsim.world.iterate (checked against real GLib in selftest)',
@@ -28,6 +28,24 @@ def gen(ch, tier):
     prof['allow_zero'] = ch.coin('allow0', 1, 8)
     prof['modulate'] = ch.coin('modulate', 1, 3)
     plan = tcpcl_pair.gen_plan(ch, prof)
+    if ch.coin('keepalive', 1, 5):
+        # keepalives on both sides (no idle time) and a stall or a busy process that lasts longer than the interval while transfers run:
+        # timer-driven messages get queued next to half-written segments. Stalls heal; with faults in the plan only the safety clauses apply.
+        for side in ('A', 'P'):
+            plan['cfg'][side]['keepalive_time'] = ch.choice(side + '.ka', (1, 1, 2))
+        for _ in range(1 + ch.pick('ka.nflt', 2)):
+            flt = dict(kind=ch.choice('ka.kind', ('stall', 'stall', 'slow')), dur=ch.choice('ka.dur', (1200000, 2500000, 4000000)))
+            if flt['kind'] == 'stall':
+                flt['dir'] = ch.choice('ka.dir', (None, 'a2b', 'b2a'))
+            else:
+                flt['node'] = ch.choice('ka.node', ('A', 'P'))
+            if ch.coin('ka.place', 2, 3):
+                flt['after'] = ['tcp-send', ch.choice('ka.side', ('A', 'P')), 3 + ch.pick('ka.nth', 30)]
+                flt['delay'] = ch.choice('ka.delay', (0, 30, 3000))
+            else:
+                flt['t'] = 1000 * ch.pick('ka.t', 3000)
+            plan['faults'].append(flt)
+        plan['keepalive_stall'] = True
     if ch.coin('many', 1, 8):
         # a dozen more small bundles from one side and a consumer that only collects at the end: transfer ids reach two
         # digits while the earlier ones are still waiting in the receive queue
